@@ -16,7 +16,8 @@ SHARD = 300
 AUTHORITY = ("C16_add / C16_mul / C16_pow / C16_scale / C16_function / C16_integer / C16_content "
              "(coq/props/C16.v): for valid operands the model returns a valid interval that contains the "
              "pointwise result of every pair of member points; the model's interval is therefore the answer the "
-             "SDK must give on exactly representable inputs")
+             "SDK must give on exactly representable inputs; C16_evaluated_in_bounds: every value reported by Instance::evaluate "
+             "lies in evaluate_bound over the instance box")
 RULE = ("exact stream: operands over the full grid of endpoint classes {-inf,-3,-1/2,0,1/2,3,+inf}^2 (all valid "
         "pairs, every pair of operands for + and x) and random dyadic endpoints k/2^a (|k|<=8,a<=2) incl. -0.0, "
         "exponents 0..6 (and 7, 255 on unit intervals), scalars dyadic non-zero (and 0 on finite intervals); sample "
